@@ -4,7 +4,8 @@
    every subregion carries the mesh's dims / units / tolerance and consists of whole cells j1..j2-1 of
    the mesh lattice on every axis (on_cells); field: that + array shape n ++ [nvdim], validity shape n.
    All statements hold for every argument value (valid, degenerate, malformed) and every history. *)
-From DF Require Import Prelude Constants_gen Region Mesh Subregions History C13_region C13_mesh C13_history.
+From DF Require Import Prelude Constants_gen Region Mesh Subregions History C13_region C13_mesh C13_history
+  ListLemmas CheckSound Check_C13 C13_sound.
 Open Scope Q_scope.
 
 (* a rejected step leaves the state of the history as it was (any root object) *)
@@ -159,3 +160,74 @@ Example C13_nonvacuous_mesh_field :
      fashape f' = [2; 4; 1; 3]%Z /\ fvshape f' = [2; 4; 1]%Z).
 Proof. exact demo_history. Qed.
 Print Assumptions C13_nonvacuous_mesh_field.
+
+(* ---------- soundness of the correspondence checker check_C13, and transfer to the observations ----------
+   ostate_rel exact sc a b: names, units, n, array shapes identical; coordinates equal as rationals
+   (exact = true) or within c13_tol * sc (exact = false).  steps_rel is the step-by-step specification:
+   for each recorded step, acceptance and the resulting state of BOTH forms are the model's. *)
+Theorem C13_check_sound : forall (s0 : hstate) (obs0 : ostate) (steps : list c13_step),
+  check_C13 (C13Case s0 obs0 steps) = true ->
+  ostate_eqv (observe s0) obs0 /\ steps_rel false s0 steps.
+Proof. exact check_C13_sound. Qed.
+Print Assumptions C13_check_sound.
+
+(* first step, not a quarter turn, against the model's own step function (the checker's Qred between
+   steps is invisible): both forms accept or refuse as the model does, observed states equal the model's *)
+Theorem C13_check_first_step_sound : forall (s0 : hstate) (obs0 : ostate) (ip : bool) (o : hop)
+    (oi oc : option ostate) (t : list c13_step),
+  check_C13 (C13Case s0 obs0 ((ip, o, oi, oc) :: t)) = true -> is_rot o = false ->
+  ostate_eqv (observe s0) obs0 /\ outcome_eqv (step true o s0) oi /\ outcome_eqv (step false o s0) oc.
+Proof. exact check_C13_first_step_sound. Qed.
+Print Assumptions C13_check_first_step_sound.
+
+(* the state the checker carries (normalised after every accepted step) keeps the invariant *)
+Theorem C13_checker_trajectory_inv : forall (s : hstate) (io : bool * hop), Inv s -> Inv (napply s io).
+Proof. exact napply_inv. Qed.
+Print Assumptions C13_checker_trajectory_inv.
+
+(* a whole shard: no failing index means every case was accepted *)
+Theorem C13_shard_verdict : forall cases k,
+  failing k (map check_C13 cases) = [] -> forall c, In c cases -> check_C13 c = true.
+Proof. exact (failing_nil_all check_C13). Qed.
+Print Assumptions C13_shard_verdict.
+
+(* transfer of C13_inplace_eq_copy_any_root: along an accepted history from a state with the invariant,
+   what the in-place form left behind and what the copying form returned agree at every step - both
+   refused, or both accepted with equal observables (until the first quarter turn) / equal names, units,
+   n, shapes and lengths (afterwards).  A statement about the recorded observations only. *)
+Theorem C13_accepted_forms_agree : forall (s0 : hstate) (obs0 : ostate) (steps : list c13_step),
+  check_C13 (C13Case s0 obs0 steps) = true -> Inv s0 -> obs_all forms_agree false steps.
+Proof. exact accepted_forms_agree. Qed.
+Print Assumptions C13_accepted_forms_agree.
+
+(* transfer of C13_inv_reachable: every observed state along an accepted history (either form) has
+   unique dims, consistent lengths, positive n and, in the exact regime, pmin < pmax on every axis *)
+Theorem C13_accepted_obs_invariant : forall (s0 : hstate) (obs0 : ostate) (steps : list c13_step),
+  check_C13 (C13Case s0 obs0 steps) = true -> Inv s0 ->
+  obs_wf true obs0 /\ obs_all both_wf false steps.
+Proof. exact accepted_obs_invariant. Qed.
+Print Assumptions C13_accepted_obs_invariant.
+
+(* Inv s0 is not tested by check_C13; it is decidable by evaluation *)
+Theorem C13_invb_sound : forall s : hstate, invb s = true -> Inv s.
+Proof. exact invb_sound. Qed.
+Print Assumptions C13_invb_sound.
+
+Theorem C13_accepted_forms_agree_dec : forall (s0 : hstate) (obs0 : ostate) (steps : list c13_step),
+  check_C13 (C13Case s0 obs0 steps) = true -> invb s0 = true -> obs_all forms_agree false steps.
+Proof. exact accepted_forms_agree_dec. Qed.
+Print Assumptions C13_accepted_forms_agree_dec.
+
+(* non-vacuity: a concrete accepted history on the demo mesh (translate; zero factor refused by both forms;
+   odd quarter turn with the in-place observation off by 1e-12), its initial state passes invb, and a
+   record with one corner of the copying form off by one is not accepted *)
+Example C13_accepted_instance : check_C13 demo_case = true /\ invb (SMesh demo_mesh) = true.
+Proof. exact (conj accepted_instance (proj1 invb_instance)). Qed.
+Print Assumptions C13_accepted_instance.
+
+Example C13_rejected_instance :
+  check_C13 (C13Case (SMesh demo_mesh) demo_obs0
+    [ (true, HTranslate (VSeq [EReal (1 # 2); EReal 0; EReal (-(2))]), Some demo_obs1,
+       Some (mkO (demo_or [3 # 2; 0; -(2)] [9 # 2; 2; -(1)] demo_us) [4; 2; 1]%Z (o_subs demo_obs1) [] [])) ]) = false.
+Proof. exact rejected_instance. Qed.
+Print Assumptions C13_rejected_instance.
